@@ -47,6 +47,10 @@ def strategy(draw, tier="quick"):
         case.update(long=True, nf=draw(st.sampled_from([300, 520, 700])), cell=draw(st.sampled_from(["tric-vary", "ortho", "ortho-then-tric", "tric-c-only"])))
     elif case["cell"] != "none":
         case["wrap"] = draw(st.booleans())     # every atom wrapped into the cell on its own (bonds cross the faces)
+    if not case.get("long") and draw(st.integers(0, 7)) == 0:
+        case.update(big=draw(st.sampled_from([69, 80])), system="water", nf=draw(st.integers(2, 3)), cell=draw(st.sampled_from(["ortho", "none", "tric-vary"])))
+        case.pop("wrap", None)
+        return case
     if not case.get("long") and draw(st.integers(0, 2)) == 0:
         # successive frames that differ only slightly, as in a real simulation: one conformation, the part of the system after
         # residue `split` approaches the rest rigidly (or moves away) by 0.1 nm per frame, starting (ending) 2.4-3.4 nm apart
@@ -69,6 +73,15 @@ def build(case):
             base = md.load(os.path.join(files.VERIF, "seeds", "water.h5"))
             keep = [a.index for a in base.topology.atoms if a.residue.index < 40]
             base = base.atom_slice(keep)
+    if case.get("big"):
+        # the same box of water copied on a 4 x 4 x 5 grid: more than 8192 atoms (thresholds of parallel code paths)
+        reps = [(i, j, k) for i in range(4) for j in range(4) for k in range(5)][:case["big"]]
+        span = float((base.xyz[0].max(axis=0) - base.xyz[0].min(axis=0)).max()) + 0.3
+        tops = base.topology
+        for _ in range(len(reps) - 1):
+            tops = tops.join(base.topology)
+        xs = np.concatenate([base.xyz + np.array(r, dtype=np.float32) * np.float32(span) for r in reps], axis=1)
+        base = md.Trajectory(xs, tops)
     nf = case["nf"]
     frames = []
     dr = case.get("drift")
@@ -127,6 +140,7 @@ def _functions(t):
         "sasa-residue": lambda x: md.shrake_rupley(x, n_sphere_points=30, mode="residue"),
         "neighbors": lambda x: [np.asarray(v) for v in md.compute_neighbors(x, 0.4, np.arange(5))],
         "neighborlist": lambda x: [np.concatenate([np.sort(v) for v in md.compute_neighborlist(x, 0.35, f)] + [np.zeros(0, int)]) for f in range(x.n_frames)],
+        "neighborlist-ordered": lambda x: [np.concatenate([np.asarray(v) for v in md.compute_neighborlist(x, 0.35, f)] + [np.zeros(0, int)]) for f in range(x.n_frames)],
         "contacts": lambda x: md.compute_contacts(x, "all", scheme="closest-heavy" if protein else "closest")[0],
         "contacts-softmin": lambda x: md.compute_contacts(x, "all", scheme="closest-heavy" if protein else "closest", soft_min=True, soft_min_beta=5.0)[0],
         "rg": lambda x: md.compute_rg(x),
@@ -169,6 +183,8 @@ def worker(case_path, out_path):
         out = {}
         fns = _functions(t)
         alone_frames = list(range(nf))
+        if case.get("big"):
+            fns = {k: fns[k] for k in ("distances", "neighbors", "neighborlist", "neighborlist-ordered", "rg", "com", "sasa") if k in fns}
         if case.get("long"):
             alone_frames = sorted({f for f in (0, 1, 127, 128, 255, 256, 257, 299, 511, 512, 513, nf - 2, nf - 1) if 0 <= f < nf})
             for slow in ("sasa-residue", "neighborlist", "wernet_nilsson", "dssp-simplified"):
